@@ -61,6 +61,9 @@ def case_strategy(draw, tier):
         q['value'] = draw(st.one_of(st.just(code[a:b]), st.just(code), st.sampled_from(['BD', 'ZZ', 'E5', code[:4]])))
     else:
         q['value'] = draw(st.lists(st.sampled_from(codes + ['BD000000', 'FFFFFFFF']), max_size=3, unique=True))
+        # the codes are "in the file" however the file is laid out
+        q['layout'] = draw(st.sampled_from(['lines', 'lines', 'crlf', 'trailing-blank', 'comment', 'one-line-spaces',
+                                            'one-line-commas', 'no-final-newline', 'indented']))
     return {'pels': pels, 'query': q, 'hex': False}
 
 
@@ -105,8 +108,18 @@ def lookups(case, note):
                 want = {p['ph']['eid'] for p in pels if refcode(p) is not None and q['value'] in refcode(p)}
             else:
                 ex = os.path.join(top, 'exclude.txt')
-                with open(ex, 'w') as f:
-                    f.write(''.join(c + '\n' for c in q['value']))
+                lay = q.get('layout', 'lines')
+                text = {'lines': ''.join(c + '\n' for c in q['value']),
+                        'crlf': ''.join(c + '\r\n' for c in q['value']),
+                        'trailing-blank': ''.join(c + '  \n' for c in q['value']),
+                        'comment': ''.join(c + ' # excluded\n' for c in q['value']),
+                        'one-line-spaces': ' '.join(q['value']) + '\n',
+                        'one-line-commas': ','.join(q['value']) + '\n',
+                        'no-final-newline': '\n'.join(q['value']),
+                        'indented': ''.join('  ' + c + '\n' for c in q['value'])}[lay]
+                with open(ex, 'w', newline='') as f:
+                    f.write(text)
+                note.label('exclude-layout=' + lay)
                 argv = ['-p', d, '--src-exclude', ex]
                 want = {p['ph']['eid'] for p in pels if refcode(p) is not None and refcode(p) not in q['value']}
             r = cli.forked(argv)
